@@ -8,7 +8,9 @@ use std::collections::BTreeMap;
 
 pub struct C12;
 
-const KEYS: [&str; 4] = ["a", "b", "c", "d"];
+/// keys of the sequences; plain and chorded items use the first four, O- groups all six
+const KEYS: [&str; 6] = ["a", "b", "c", "d", "e", "f"];
+const N_PLAIN: usize = 4;
 /// prefix text, mask, modifier key typed with the left hand, with the right hand (None: only one)
 const PFX: [(&str, u16, &str, Option<&str>); 8] = [
     ("S-", 0x8000, "lsft", Some("rsft")),
@@ -62,12 +64,12 @@ fn cfg_text(c: &SCase) -> String {
         c.timeout,
         if c.always_on { " sequence-always-on yes" } else { "" }
     );
-    s.push_str("(defsrc a b c d x l lsft rsft lctl rctl lalt ralt lmet rmet)\n");
+    s.push_str("(defsrc a b c d e f x l lsft rsft lctl rctl lalt ralt lmet rmet)\n");
     s.push_str("(defvirtualkeys");
     for (i, o) in VK_OUT.iter().enumerate() {
         s.push_str(&format!(" v{i} {o}"));
     }
-    s.push_str(")\n(deflayer l0 a b c d x sldr lsft rsft lctl rctl lalt ralt lmet rmet)\n(defseq");
+    s.push_str(")\n(deflayer l0 a b c d e f x sldr lsft rsft lctl rctl lalt ralt lmet rmet)\n(defseq");
     for (i, seq) in c.seqs.iter().enumerate() {
         s.push_str(&format!("\n  v{i} ({})", seq.iter().map(item_text).collect::<Vec<_>>().join(" ")));
     }
@@ -248,11 +250,11 @@ fn conflict_free(seqs: &[Vec<SI>]) -> bool {
             all.push((i, e));
         }
     }
-    for (x, (_, a)) in all.iter().enumerate() {
-        for (y, (_, b)) in all.iter().enumerate() {
-            if x != y && is_prefix(a, b) {
-                return false;
-            }
+    // sorted lexicographically, a prefix is immediately followed by one of its extensions
+    all.sort_by(|x, y| x.1.cmp(&y.1));
+    for w in all.windows(2) {
+        if is_prefix(&w[0].1, &w[1].1) {
+            return false;
         }
     }
     true
@@ -268,6 +270,9 @@ fn judge_case(c: &SCase) -> Verdict {
     };
     let has_overlap = c.seqs.iter().flatten().any(|i| matches!(i, SI::Overlap(_)));
     let mut v = Verdict::pass(shared_first || has_overlap);
+    if c.seqs.iter().flatten().any(|i| matches!(i, SI::Overlap(ks) if ks.len() >= 5)) {
+        v.classes.push("overlap-group-of-5-or-6-keys");
+    }
     let parsed = kanata_parser::cfg::new_from_str(&text, files);
     match (&parsed, model_ok) {
         (Err(e), true) => {
@@ -646,7 +651,7 @@ fn judge_case(c: &SCase) -> Verdict {
 
 fn item_strategy() -> BoxedStrategy<SI> {
     let distinct = |n: std::ops::Range<usize>| {
-        prop::collection::vec(0usize..KEYS.len(), n).prop_map(|v| {
+        prop::collection::vec(0usize..N_PLAIN, n).prop_map(|v| {
             let mut out: Vec<usize> = vec![];
             for k in v {
                 if !out.contains(&k) {
@@ -657,10 +662,12 @@ fn item_strategy() -> BoxedStrategy<SI> {
         })
     };
     prop_oneof![
-        5 => (0usize..KEYS.len()).prop_map(SI::Key),
-        3 => (0usize..PFX.len(), 0usize..KEYS.len()).prop_map(|(p, k)| SI::Mod(p, k)),
+        5 => (0usize..N_PLAIN).prop_map(SI::Key),
+        3 => (0usize..PFX.len(), 0usize..N_PLAIN).prop_map(|(p, k)| SI::Mod(p, k)),
         1 => (0usize..PFX.len(), distinct(1..4)).prop_map(|(p, ks)| SI::ModGroup(p, ks)),
-        2 => distinct(2..5).prop_filter_map("group needs 2 keys", |ks| if ks.len() >= 2 { Some(SI::Overlap(ks)) } else { None }),
+        4 => distinct(2..5).prop_filter_map("group needs 2 keys", |ks| if ks.len() >= 2 { Some(SI::Overlap(ks)) } else { None }),
+        // the documented maximum: groups of up to 6 keys (5 or 6 of a-f in a generated order)
+        1 => (Just((0..KEYS.len()).collect::<Vec<usize>>()).prop_shuffle(), 5usize..=6).prop_map(|(ks, n)| SI::Overlap(ks[..n].to_vec())),
     ]
     .boxed()
 }
@@ -673,7 +680,7 @@ impl TypedProp for C12 {
     fn info(&self) -> PropInfo {
         PropInfo {
             level: "exploration",
-            rule: "tables: 1-5 defseq sequences of 1-4 items over keys a-d: plain keys, chorded keys with every modifier prefix (S- C- A- M- RA- RS- RC- RM-), chorded groups, O-(..) groups of 2-4 keys; input modes visible-backspaced / hidden-suppressed / hidden-delay-type, sequence-always-on, timeouts {10,50}. Oracle (i): the harness encodes every sequence and every O- permutation itself (documented bit layout) and decides prefix-freedom: the parser must accept iff prefix-free, and the compiled table must answer HasValue(the right virtual key) for every encoding and InTrie for every proper prefix. Oracle (ii): for an accepted table one sequence is typed physically (every O- order, left- or right-hand modifier): fully => its virtual key exactly once, no other, sequence mode left, nothing down; hidden modes press no typed key, visible-backspaced sends one backspace per typed character; a proper prefix followed by a key in no sequence, then the whole sequence again without the leader => no virtual key; the full sequence, then the leader again with a proper prefix and a key in no sequence => the virtual key exactly once, and in hidden-delay-type the failed session types exactly its own keys; the leader pressed again after a proper prefix (no key held) => ignored in visible-backspaced and hidden-delay-type (the rest completes the sequence), a restart in hidden-suppressed (the whole sequence typed again completes it): the virtual key exactly once; a pause of T-1 ms between two key presses still completes, T and T+1 do not. Non-trivial: >= 2 sequences share a first key, or an O- group occurs. Distinct: hash of the case.",
+            rule: "tables: 1-5 defseq sequences of 1-4 items over keys a-d: plain keys, chorded keys with every modifier prefix (S- C- A- M- RA- RS- RC- RM-), chorded groups, O-(..) groups of 2-4 keys of a-d, one group in five of 5-6 keys of a-f (6 is the maximum the parser accepts); input modes visible-backspaced / hidden-suppressed / hidden-delay-type, sequence-always-on, timeouts {10,50}. Oracle (i): the harness encodes every sequence and every O- permutation itself (documented bit layout) and decides prefix-freedom: the parser must accept iff prefix-free, and the compiled table must answer HasValue(the right virtual key) for every encoding and InTrie for every proper prefix. Oracle (ii): for an accepted table one sequence is typed physically (every O- order, left- or right-hand modifier): fully => its virtual key exactly once, no other, sequence mode left, nothing down; hidden modes press no typed key, visible-backspaced sends one backspace per typed character; a proper prefix followed by a key in no sequence, then the whole sequence again without the leader => no virtual key; the full sequence, then the leader again with a proper prefix and a key in no sequence => the virtual key exactly once, and in hidden-delay-type the failed session types exactly its own keys; the leader pressed again after a proper prefix (no key held) => ignored in visible-backspaced and hidden-delay-type (the rest completes the sequence), a restart in hidden-suppressed (the whole sequence typed again completes it): the virtual key exactly once; a pause of T-1 ms between two key presses still completes, T and T+1 do not. Non-trivial: >= 2 sequences share a first key, or an O- group occurs. Distinct: hash of the case.",
             assumptions: vec!["pinned timeout convention: a key press fewer than T ms after the previous one continues the sequence".into()],
             extra: BTreeMap::new(),
         }
@@ -686,7 +693,7 @@ impl TypedProp for C12 {
             },
             exhaustive: false,
             distinct_by_construction: false,
-            required_classes: vec![
+            required_classes: vec!["overlap-group-of-5-or-6-keys", 
                 "accepted", "rejected-conflict", "typed-full", "typed-prefix-then-other", "pause-T-1", "pause-T", "pause-T+1", "two-sessions", "leader-again-mid-sequence", "overlap-group",
                 "right-hand-modifier", "right-hand-prefix-in-table",
             ],
@@ -708,7 +715,60 @@ impl TypedProp for C12 {
             0u8..7,
             any::<u16>(),
         )
-            .prop_map(|(seqs, mode, timeout, always_on, which, perm, right_hand, scenario, cut)| SCase {
+            .prop_map(|(mut seqs, mode, timeout, always_on, which, perm, right_hand, scenario, cut)| {
+                // one group of 5-6 keys per table (720 orders each; the encodings multiply)
+                let mut big = 0;
+                for it in seqs.iter_mut().flatten() {
+                    if let SI::Overlap(ks) = it {
+                        if ks.len() >= 5 {
+                            big += 1;
+                            if big > 1 {
+                                ks.truncate(3);
+                            }
+                        }
+                    }
+                }
+                // bound the number of encodings of the table (orders multiply within a sequence)
+                let fact = |n: usize| (1..=n).product::<usize>();
+                loop {
+                    let total: usize = seqs.iter().map(|sq| sq.iter().map(|it| if let SI::Overlap(ks) = it { fact(ks.len()) } else { 1 }).product::<usize>()).sum();
+                    if total <= 3000 {
+                        break;
+                    }
+                    // shorten the longest group that is not the (first) big one
+                    let mut best: Option<(usize, usize, usize)> = None;
+                    let mut seen_big = false;
+                    for (i, sq) in seqs.iter().enumerate() {
+                        for (j, it) in sq.iter().enumerate() {
+                            if let SI::Overlap(ks) = it {
+                                if ks.len() >= 5 && !seen_big {
+                                    seen_big = true;
+                                    continue;
+                                }
+                                if ks.len() > 2 && best.map_or(true, |b| ks.len() > b.2) {
+                                    best = Some((i, j, ks.len()));
+                                }
+                            }
+                        }
+                    }
+                    match best {
+                        Some((i, j, _)) => {
+                            if let SI::Overlap(ks) = &mut seqs[i][j] {
+                                ks.pop();
+                            }
+                        }
+                        None => {
+                            // only groups of two are left next to the big one: drop the last item of the longest sequence
+                            let i = (0..seqs.len()).max_by_key(|i| seqs[*i].len()).unwrap();
+                            if seqs[i].len() > 1 {
+                                seqs[i].pop();
+                            } else {
+                                break;
+                            }
+                        }
+                    }
+                }
+                SCase {
                 seqs,
                 mode,
                 timeout,
@@ -723,7 +783,7 @@ impl TypedProp for C12 {
                 right_hand,
                 scenario,
                 cut,
-            })
+            }})
             .boxed()
     }
     fn judge(&self, case: &SCase) -> Verdict {
